@@ -16,7 +16,7 @@ pub const DEF: PropDef = PropDef {
     id: "C15",
     jobs,
     required,
-    rule: "one case = one ordered pair (x, y) of read items, each taken in one of its representations (item of region A, item of a second region B in a different state, borrow_as(&owned); for Huffman: raw container, encoded container, borrow_as), compared with ==, !=, partial_cmp and cmp and checked against ==, lexicographic cmp of the owned values: x == y <=> vx == vy, x != y <=> !(x == y), x.cmp(y) == vx.cmp(vy), partial_cmp == Some(cmp), (x == y) <=> (cmp == Equal); order laws (reflexivity, antisymmetry, transitivity) additionally checked directly on triples. Exhaustive: all vectors of length <= 3 over a 3-value domain (40 vectors, 1600 ordered pairs x 9 representation pairs) for slice<mirror<u8>>, slice<string>, slice<slice<mirror<u8>>>, slice<mirror<usize>> with both compressing index containers, and HuffmanContainer<u8>; random longer vectors. Non-trivial = the two items are not the same index of the same region; distinct = distinct (composition, vx, vy, representation pair).",
+    rule: "one case = one ordered pair (x, y) of read items, each taken in one of its representations (item of region A, item of a second region B in a different state, borrow_as(&owned); for Huffman: raw container, encoded container, borrow_as), compared with ==, !=, partial_cmp and cmp and checked against ==, lexicographic cmp of the owned values: x == y <=> vx == vy, x != y <=> !(x == y), x.cmp(y) == vx.cmp(vy), partial_cmp == Some(cmp), (x == y) <=> (cmp == Equal); order laws (reflexivity, antisymmetry, transitivity) additionally checked directly on triples. Exhaustive: all vectors of length <= 3 (thorough: 4) over a 3-value domain (40 / 121 vectors, 1600 / 14641 ordered pairs x 9 representation pairs) for slice<mirror<u8>>, slice<string>, slice<slice<mirror<u8>>>, slice<mirror<usize>> with both compressing index containers, and HuffmanContainer<u8>; random longer vectors. Non-trivial = the two items are not the same index of the same region; distinct = distinct (composition, vx, vy, representation pair).",
     assumptions: &["ReadColumns and the other read items implement no comparison traits and are outside this property"],
 };
 
@@ -29,7 +29,7 @@ fn jobs(plan: &Plan) -> Vec<Job> {
     v.push(standalone("slice<mirror<usize>,optimized>", "exhaustive", 0, |c| exhaustive_slice::<SliceRegion<MirrorRegion<usize>, IO>, usize>(c)));
     v.push(standalone("slice<mirror<usize>,list>", "exhaustive", 0, |c| exhaustive_slice::<SliceRegion<MirrorRegion<usize>, IL>, usize>(c)));
     v.push(standalone("huffman<u8>", "exhaustive", 0, exhaustive_huffman));
-    for h in 0..t.pick(150, 600, 1) {
+    for h in 0..t.pick(150, 20000, 1) {
         v.push(standalone("slice<mirror<u8>>", "random", h, |c| random_slice::<SliceRegion<MirrorRegion<u8>>, u8>(c)));
         v.push(standalone("slice<string>", "random", h, |c| random_slice::<SliceRegion<StringRegion>, String>(c)));
         v.push(standalone("slice<slice<string>>", "random", h, |c| random_slice::<SliceRegion<SliceRegion<StringRegion>>, Vec<String>>(c)));
@@ -81,9 +81,9 @@ fn compare<I: Ord + Debug, V: Ord + Debug>(x: &I, y: &I, vx: &V, vy: &V) -> Resu
     Ok(())
 }
 
-fn all_vectors<T: Clone>(letters: &[T; 3]) -> Vec<Vec<T>> {
+fn all_vectors<T: Clone>(letters: &[T; 3], maxlen: usize) -> Vec<Vec<T>> {
     let mut out: Vec<Vec<T>> = vec![vec![]];
-    for len in 1..=3usize {
+    for len in 1..=maxlen {
         for code in 0..3usize.pow(len as u32) {
             let mut v = Vec::new();
             let mut x = code;
@@ -209,7 +209,7 @@ where
     for<'a> R: Push<&'a Vec<T>>,
     for<'a> R::ReadItem<'a>: Ord + Debug,
 {
-    let vals = all_vectors(&T::letters());
+    let vals = all_vectors(&T::letters(), if ctx.tier == Tier::Thorough { 4 } else { 3 });
     let label = ctx.entry.clone();
     check_pairs::<R, T>(ctx, &vals, &label, true);
     if ctx.rep.samples.len() < 3 {
@@ -331,7 +331,7 @@ fn huffman_pairs(ctx: &mut Ctx, vals: &[Vec<u8>], exhaustive: bool) {
 }
 
 fn exhaustive_huffman(ctx: &mut Ctx) {
-    let vals = all_vectors(&[3u8, 4, 200]);
+    let vals = all_vectors(&[3u8, 4, 200], if ctx.tier == Tier::Thorough { 4 } else { 3 });
     huffman_pairs(ctx, &vals, true);
     ctx.cover("exhaustive:huffman<u8>");
 }
